@@ -7,7 +7,7 @@
 (* x MkdirAll in the middle of a mixed batch), then a seeded sample.           *)
 EXTENDS FileOpsDefs, TLC, Json
 
-States == { [a |-> fs.a, b |-> fs.b, sub |-> fs.sub, c |-> fs.c, n |-> 0, ld |-> 0] : fs \in { f \in FSStates : WellFormed(f) } }
+States == { [a |-> fs.a, b |-> fs.b, sub |-> fs.sub, c |-> fs.c, n |-> 0, ld |-> 0, tl |-> "absent", tt |-> "absent"] : fs \in { f \in FSStates : WellFormed(f) } }
 OpenItems == { [p |-> p, idx |-> 0, mode |-> m, mk |-> k, perm |-> q] : p \in OpenPaths, m \in Modes, k \in BOOLEAN, q \in Perms }
 (* sustained large batches on one long-lived environment: `files` numbered files, `rounds`    *)
 (* consecutive batches of `batch` items over them (plus a few absent indices), every round    *)
@@ -39,6 +39,20 @@ ErrBudgetsKiB == { 8, 16, 24, 30 }
 ASSUME ndJsonSerialize("longopen.ndjson", SetToSeq(LongOpenItems))
 ASSUME ndJsonSerialize("longlink.ndjson", SetToSeq(LongLinkItems))
 ASSUME ndJsonSerialize("budgets.ndjson", SetToSeq({ [kib |-> b, op |-> o, len |-> n] : b \in ErrBudgetsKiB, o \in {"open", "symlink"}, n \in 1..3 }))
+(* interacting directory chains: states of /w/l and /w/t, the items naming files below them, and  *)
+(* the batch patterns in which the MkdirAll of one item and the parent of another interact        *)
+TreeStates == { [tl |-> x, tt |-> y] : x \in {"absent", "dir", "file", "link"}, y \in {"absent", "dir"} }
+TreeItems == { [p |-> p, idx |-> 0, mode |-> m, mk |-> k, perm |-> 420] : p \in {"ld", "td"}, m \in {"r", "w", "rw", "x", "ac"}, k \in BOOLEAN }
+TreePatterns == { <<"ld+", "td+", "any">>,      \* earlier MkdirAll fails (dangling link), later item creates the link's target
+                  <<"td+", "ld+", "any">>,      \* the other order: resolvable when its turn comes
+                  <<"ld-", "ld+", "ld-">>,      \* a later item creates the parent of an earlier item without MkdirAll
+                  <<"td-", "any", "td+", "td-">>,
+                  <<"ld+", "ld+">>, <<"td+", "ld+", "td+">>,   \* the same directory requested twice
+                  <<"c-", "c+", "c-">>,         \* the same with /w/sub/c
+                  <<"any", "ld+", "any", "td+">> }
+ASSUME ndJsonSerialize("treestates.ndjson", SetToSeq(TreeStates))
+ASSUME ndJsonSerialize("treeitems.ndjson", SetToSeq(TreeItems))
+ASSUME ndJsonSerialize("treepatterns.ndjson", SetToSeq({ [pat |-> q] : q \in TreePatterns }))
 ASSUME ndJsonSerialize("sustained.ndjson", SetToSeq(Sustained))
 ASSUME ndJsonSerialize("numbereditems.ndjson", SetToSeq(NumberedItems))
 ASSUME PrintT(<<"generated", Cardinality(States), Cardinality(OpenItems), Cardinality(LinkItems)>>)
